@@ -757,7 +757,10 @@ def run_c08(chk):
         for e, x, y in zip(es, fa, fm):
             ref_ok += not y.startswith("err")
             chk.count(["ref", e], nontrivial=not y.startswith("err:syntax"))
-            if x != y and not classify_ns(e, x, y):
+            # which of several evaluation errors of one expression is reported (an unbound prefix, a type error) is not a
+            # matter of how the expression is READ: both sides read it, both refuse it
+            ev = lambda v: "err:evaluation" if v.startswith("err:") and v not in ("err:syntax", "err:remain", "err:fuel", "err:doc") else v
+            if ev(x) != ev(y) and not classify_ns(e, x, y):
                 mfail.append((t, e, "the parser reads this expression differently from the reviewed grammar (tools/ref/xpath.json); "
                               "productions that differ now: %s" % [d[0] for d in lib.GRAMMAR_DIFFS["xpath"]], x + " expected " + y))
     chk.cov["reviewed_grammar_stream"] = "%d expressions, %d readable by the reviewed grammar" % (len(rtexts), ref_ok)
